@@ -166,6 +166,7 @@ def _develop_triangle_by_atas(triangle, resampled_atas) -> Triangle:
                         else None
                     )
                     for field, v in values.items()
+                    if field in resampled_atas[cell.dev_lag()]
                 },
             }
             cells.append(
